@@ -122,6 +122,12 @@ MUTATIONS = [
     ("dask_expr/_expr.py", "    if column_union == parent.operand(\"columns\"):\n        return result\n    return type(parent)(result, parent.operand(\"columns\"))", "    return result", "vf.contracts.projection:PlainColumnProjection", "post:parent-selection-reapplied"),
     ("dask_expr/_expr.py", "    if column_union == expr.frame.columns:\n        return\n    result = type(expr)(expr.frame[column_union], *expr.operands[1:])", "    if len(column_union) == len(expr.frame.columns) - 1:\n        return\n    result = type(expr)(expr.frame[column_union], *expr.operands[1:])", "vf.contracts.projection:PlainColumnProjection", "UNDECIDED-OR-REFUTED"),
     ("dask_expr/_expr.py", "    result = type(expr)(expr.frame[column_union], *expr.operands[1:])\n    if column_union == parent.operand(\"columns\"):", "    result = type(expr)(expr.frame[parent.operand(\"columns\")], *expr.operands[1:])\n    if column_union == parent.operand(\"columns\"):", "vf.contracts.projection:PlainColumnProjection", "post:kept-covers-every-need"),
+    # partition-selection rewrite rule (C11 / C01)
+    ("dask_expr/_expr.py", "                partitions = [self.frame._partitions[p] for p in self.partitions]\n", "                partitions = [self.partitions[p] for p in self.frame._partitions]\n", "vf.contracts.rules:PartitionsSimplifyDown", "post:selection-composed-with-the-frames-own"),
+    ("dask_expr/_expr.py", "                    if (isinstance(op, Expr) and not self.frame._broadcast_dep(op))\n                    else op\n                )\n                for op in self.frame.operands\n            ]\n            return type(self.frame)(*operands)\n        elif isinstance(self.frame, PartitionsFiltered):", "                    if isinstance(op, Expr)\n                    else op\n                )\n                for op in self.frame.operands\n            ]\n            return type(self.frame)(*operands)\n        elif isinstance(self.frame, PartitionsFiltered):", "vf.contracts.rules:PartitionsSimplifyDown", "post:selection-pushed-into-aligned-expression-operands-only"),
+    ("dask_expr/_expr.py", "                self.frame, (BlockwiseIO, Fused, SetIndexBlockwise, MapOverlap)\n            )\n        ):\n            operands = [\n                (\n                    Partitions(op, self.partitions)", "                self.frame, (BlockwiseIO, Fused, SetIndexBlockwise)\n            )\n        ):\n            operands = [\n                (\n                    Partitions(op, self.partitions)", "vf.contracts.rules:PartitionsSimplifyDown", "post:branch-taken-matches-the-kind-of-frame"),
+    ("dask_expr/_expr.py", "                    Partitions(op, self.partitions)\n                    if (isinstance(op, Expr) and not self.frame._broadcast_dep(op))", "                    Partitions(op, self.partitions[:1])\n                    if (isinstance(op, Expr) and not self.frame._broadcast_dep(op))", "vf.contracts.rules:PartitionsSimplifyDown", "post:selection-pushed-into-aligned-expression-operands-only"),
+    ("dask_expr/_expr.py", "            if self.frame._partitions:\n                partitions = [self.frame._partitions[p] for p in self.partitions]\n            else:\n                partitions = self.partitions\n", "            if self.frame._filtered:\n                partitions = [self.frame._partitions[p] for p in self.partitions]\n            else:\n                partitions = self.partitions\n", "vf.contracts.rules:PartitionsSimplifyDown", "UNDECIDED-OR-REFUTED"),
     # harmless edits: renamed local, reordered independent statements, extra statement
     ("dask_expr/_expr.py", "        new_divisions = []\n        for part in self._partitions:\n            new_divisions.append(full_divisions[part])\n        new_divisions.append(full_divisions[part + 1])\n        return tuple(new_divisions)", "        picked = []\n        for part in self._partitions:\n            picked.append(full_divisions[part])\n        picked.append(full_divisions[part + 1])\n        return tuple(picked)", "vf.contracts.partitions:PFDivisions", None),
     ("dask_expr/_repartition.py", "        npartitions = self.new_partitions\n        npartitions_input = self.frame.npartitions\n", "        npartitions_input = self.frame.npartitions\n        npartitions = self.new_partitions\n", "vf.contracts.repartition:FewerBoundaries", None),
